@@ -242,8 +242,16 @@ func randLexTok(r *rng) lexTok {
 			return lexTok{kind: "str", s: want, text: t}
 		}
 		s := make([]byte, r.intn(9))
+		special := r.chance(1, 3) // strings rich in line ends, escapes and digits (escape / line-end state machines)
 		for i := range s {
 			s[i] = byte(r.intn(256))
+			if special {
+				s[i] = pick(r, []byte{'\n', '\n', '\r', '\\', 'A', '7', '8', '0', '\t', ' '})
+			}
+		}
+		if r.chance(1, 6) {
+			// boundary groups of the ASCII85 and hex encodings: all ones, all zeros, the largest group
+			s = append(pick(r, [][]byte{{255, 255, 255, 255}, {0, 0, 0, 0}, {255, 255, 255, 255, 255}, {255, 255, 255, 254}, {0, 255, 255, 255, 255, 0}}), s[:r.intn(len(s)+1)]...)
 		}
 		return lexTok{kind: "str", s: s, text: spellString(r, s)}
 	case 5, 6:
@@ -476,6 +484,8 @@ func suiteLex(o *suiteOut, r *rng, tier string, n int) {
 		{"1.", lexTok{kind: "real", f: 1}}, {".5", lexTok{kind: "real", f: 0.5}}, {"-.5e1", lexTok{kind: "real", f: -5}}, {"1E3", lexTok{kind: "real", f: 1000}},
 		{"(\\1234)", lexTok{kind: "str", s: []byte("S4")}}, {"(\\0)", lexTok{kind: "str", s: []byte{0}}}, {"(\\08)", lexTok{kind: "str", s: []byte{0, '8'}}},
 		{"(a\\\nb)", lexTok{kind: "str", s: []byte("ab")}}, {"(a\r\nb)", lexTok{kind: "str", s: []byte("a\nb")}}, {"(a\rb)", lexTok{kind: "str", s: []byte("a\nb")}},
+		{"<~s8W-!~>", lexTok{kind: "str", s: []byte{255, 255, 255, 255}}}, {"<~s8W-!s8W-!z~>", lexTok{kind: "str", s: []byte{255, 255, 255, 255, 255, 255, 255, 255, 0, 0, 0, 0}}},
+		{"<~s8W*~>", lexTok{kind: "str", s: []byte{255, 255, 255}}}, {"<~s8N~>", lexTok{kind: "str", s: []byte{255, 255}}}, {"<~rr~>", lexTok{kind: "str", s: []byte{255}}},
 		{"<~z~>", lexTok{kind: "str", s: []byte{0, 0, 0, 0}}}, {"<~!!~>", lexTok{kind: "str", s: []byte{0}}}, {"<~87cURD]i,\"Ebo80~>", lexTok{kind: "str", s: []byte("Hello World!")}},
 		{"<901fa>", lexTok{kind: "str", s: []byte{0x90, 0x1f, 0xa0}}}, {"<>", lexTok{kind: "str", s: nil}}, {"()", lexTok{kind: "str", s: nil}},
 	} {
@@ -611,6 +621,7 @@ func suiteEexec(o *suiteOut, r *rng, tier string, n int) {
 				}
 			}
 		}
+		var trailerClear string
 		prefix := pick(r, []string{"", "/before 1 def ", "%!PS\n5 dict begin /x 2 def end\n", "1 2 "})
 		trailer := pick(r, []string{"", "\n" + strings.Repeat("0", 64) + "\ncleartomark /after 3 def", " 7 8", "\ncleartomark"})
 		var iv [4]byte
@@ -629,6 +640,33 @@ func suiteEexec(o *suiteOut, r *rng, tier string, n int) {
 				break
 			}
 		}
+		// the section may leave the dictionary stack unbalanced: closing it restores the depth it had before
+		unbal, fix := "", "end "
+		switch r.intn(6) {
+		case 0:
+			unbal, fix = "3 dict begin /x__ 1 def ", "end end "
+		case 1:
+			unbal, fix = "end ", ""
+		case 2:
+			unbal, fix = "2 dict begin 2 dict begin ", "end end end "
+		}
+		body = append(body, []byte(unbal)...)
+		// a second encrypted part later in the same stream starts with a fresh cipher state
+		if r.chance(1, 4) {
+			second := cipherEncrypt(55665, append([]byte{'X', 0, 0, 0}, []byte("/second__ 2 def mark currentfile closefile\n")...))
+			sec := "\ncleartomark currentfile eexec\n"
+			secClear := "\ncleartomark systemdict begin /second__ 2 def mark end "
+			if r.chance(1, 2) {
+				sec += hexArmour(r, second)
+			} else {
+				sec += string(second)
+			}
+			trailer2 := pick(r, []string{"\ncleartomark", "\n" + strings.Repeat("0", 64) + "\ncleartomark /after2 4 def"})
+			trailerClear = secClear + trailer2
+			trailer = sec + trailer2
+		} else {
+			trailerClear = trailer
+		}
 		inner := append(append([]byte{}, body...), []byte("mark currentfile closefile\n")...)
 		cipher := cipherEncrypt(55665, append(iv[:], inner...))
 		var enc bytes.Buffer
@@ -644,8 +682,8 @@ func suiteEexec(o *suiteOut, r *rng, tier string, n int) {
 		clear.WriteString(prefix)
 		clear.WriteString("systemdict begin ")
 		clear.Write(body)
-		clear.WriteString("mark end ")
-		clear.WriteString(trailer)
+		clear.WriteString("mark " + fix)
+		clear.WriteString(trailerClear)
 		lineE := runCaseLine(100000, false, enc.String())
 		classE, intpE := p.run(100000, false, enc.String())
 		if intpE == nil {
